@@ -13,7 +13,11 @@ import torch
 from . import opbuild
 
 
-def R(rng, *shape, lo=-2.0, hi=2.0, dtype=torch.float64):
+_DT = [torch.float64]       # dtype of the tensors made by R (set per case by operator_cases)
+
+
+def R(rng, *shape, lo=-2.0, hi=2.0, dtype=None):
+    dtype = dtype or _DT[0]
     n = 1
     for s in shape:
         n *= s
@@ -305,6 +309,26 @@ def utility_cases():
                 rhs = ar.t(R(rng, 5, 2), "rhs")
                 return lambda: contour_integral_quad(op, rhs, inverse=inv, num_contour_quadrature=5)
             add("contour_integral_quad", "%s/%s" % (cls, "inverse" if inv else "sqrt"), b)
+    # ---- user-supplied probe vectors (deprecated deterministic_probes feature): caller tensors held in a settings class
+    for cls in ("Dense", "AddedDiag", "Kron"):
+        def b(ar, rng, cls=cls):
+            e = opbuild.gen(rng, cls, batch=[], m=4, psd=True)
+            op = ar.op(e, "op")
+            n = op.shape[-1]
+            pv = ar.t(R(rng, n, 3), "probe_vectors", expand="none")
+            rhs = ar.t(R(rng, n, 2), "rhs", expand="batch")
+
+            def go():
+                with settings.deterministic_probes(True), settings.max_cholesky_size(0), settings.num_trace_samples(3), \
+                        settings.max_preconditioner_size(2), settings.min_preconditioning_size(1):
+                    old = settings.deterministic_probes.probe_vectors
+                    settings.deterministic_probes.probe_vectors = pv
+                    try:
+                        return op.inv_quad_logdet(rhs, logdet=True)
+                    finally:
+                        settings.deterministic_probes.probe_vectors = old
+            return go
+        add("inv_quad_logdet.deterministic_probes", cls, b)
     # ---- broadcasting helper
     def b(ar, rng):
         x = ar.t(R(rng, 3), "obj")
@@ -351,15 +375,23 @@ def _methods():
     from linear_operator import settings
     M = {}
 
+    def bt(ar, rng, shp, rows, cols, name, **kw):
+        """a caller tensor of matrix shape rows x cols (cols None: vector) carrying the operator's batch shape; in the expanded
+        layout mostly a stride-0 batch expansion (like the batch-expanded operator leaves), else constant along the last dim"""
+        b = tuple(shp[:-2])
+        tail = (rows,) if cols is None else (rows, cols)
+        if ar.layout == "expanded" and b and b[0] == 2 and rng.random() < 0.7:
+            return ar.t(R(rng, *b[1:], *tail, **kw), name, expand="batch")
+        return ar.t(R(rng, *b, *tail, **kw), name, expand="last")
+
     def rhs_(ar, rng, shp, k=2, name="rhs"):
-        # expanded layout: stride-0 batch expansion (matches the batch-expanded operator leaves) or constant last dim
-        return ar.t(R(rng, shp[-1], k), name, expand="batch" if rng.random() < 0.7 else "last")
+        return bt(ar, rng, shp, shp[-1], k, name)
 
     M["to_dense"] = (False, lambda op, ar, rng, s: (lambda: op.to_dense()))
     M["matmul"] = (False, lambda op, ar, rng, s: (lambda r=rhs_(ar, rng, s): op.matmul(r)))
-    M["matmul_vec"] = (False, lambda op, ar, rng, s: (lambda r=ar.t(R(rng, s[-1]), "rhs"): op @ r))
-    M["rmatmul"] = (False, lambda op, ar, rng, s: (lambda l=ar.t(R(rng, 2, s[-2]), "lhs"): l @ op))
-    M["t_matmul"] = (False, lambda op, ar, rng, s: (lambda r=ar.t(R(rng, s[-2], 2), "rhs"): op.mT @ r))
+    M["matmul_vec"] = (False, lambda op, ar, rng, s: (lambda r=bt(ar, rng, s, s[-1], None, "rhs") if len(s) == 2 else bt(ar, rng, s, s[-1], 1, "rhs"): op @ r))
+    M["rmatmul"] = (False, lambda op, ar, rng, s: (lambda l=bt(ar, rng, s, 2, s[-2], "lhs"): l @ op))
+    M["t_matmul"] = (False, lambda op, ar, rng, s: (lambda r=bt(ar, rng, s, s[-2], 2, "rhs"): op.mT @ r))
     M["transpose_dense"] = (False, lambda op, ar, rng, s: (lambda: op.transpose(-1, -2).to_dense()))
     M["diagonal"] = (False, lambda op, ar, rng, s: (lambda: op.diagonal()))
     M["getitem_int"] = (False, lambda op, ar, rng, s: (lambda: op[..., 1, :].to_dense() if hasattr(op[..., 1, :], "to_dense") else op[..., 1, :]))
@@ -368,16 +400,16 @@ def _methods():
         lambda i=ar.t(torch.tensor([0, s[-2] - 1]), "row_index", expand="none"), j=ar.t(torch.tensor([s[-1] - 1, 0]), "col_index", expand="none"): op[..., i, j]))
     M["getitem_tensor_slice"] = (False, lambda op, ar, rng, s: (
         lambda i=ar.t(torch.tensor([0, s[-2] - 1]), "row_index", expand="none"): op[..., i, :].to_dense()))
-    M["add_diagonal"] = (True, lambda op, ar, rng, s: (lambda d=ar.t(R(rng, s[-1], lo=0.5, hi=1.5), "diag"): op.add_diagonal(d).to_dense()))
+    M["add_diagonal"] = (True, lambda op, ar, rng, s: (lambda d=bt(ar, rng, s, s[-1], None, "diag", lo=0.5, hi=1.5): op.add_diagonal(d).to_dense()))
     M["add_jitter"] = (True, lambda op, ar, rng, s: (lambda: op.add_jitter(0.5).to_dense()))
-    M["add_tensor"] = (False, lambda op, ar, rng, s: (lambda t=ar.t(R(rng, s[-2], s[-1]), "other"): (op + t).to_dense()))
-    M["add_low_rank"] = (True, lambda op, ar, rng, s: (lambda t=ar.t(R(rng, s[-2], 2), "low_rank_mat"): op.add_low_rank(t).to_dense()))
+    M["add_tensor"] = (False, lambda op, ar, rng, s: (lambda t=bt(ar, rng, s, s[-2], s[-1], "other"): (op + t).to_dense()))
+    M["add_low_rank"] = (True, lambda op, ar, rng, s: (lambda t=bt(ar, rng, s, s[-2], 2, "low_rank_mat"): op.add_low_rank(t).to_dense()))
     M["mul_const"] = (False, lambda op, ar, rng, s: (lambda: (op * 2.0).to_dense()))
     M["mul_tensor_const"] = (False, lambda op, ar, rng, s: (lambda c=ar.t(torch.tensor(1.5, dtype=torch.float64), "constant", expand="none"): (op * c).to_dense()))
     M["div_const"] = (False, lambda op, ar, rng, s: (lambda: (op / 2.0).to_dense()))
     M["sum_rows"] = (False, lambda op, ar, rng, s: (lambda: op.sum(-1)))
     M["solve"] = (True, lambda op, ar, rng, s: (lambda r=rhs_(ar, rng, s): op.solve(r)))
-    M["solve_lhs"] = (True, lambda op, ar, rng, s: (lambda r=rhs_(ar, rng, s), l=ar.t(R(rng, 2, s[-2]), "lhs", expand="batch"): op.solve(r, l)))
+    M["solve_lhs"] = (True, lambda op, ar, rng, s: (lambda r=rhs_(ar, rng, s), l=bt(ar, rng, s, 2, s[-2], "lhs"): op.solve(r, l)))
     M["solve_iterative"] = (True, lambda op, ar, rng, s: (lambda r=rhs_(ar, rng, s): _iter(lambda: op.solve(r))))
     M["inv_quad_logdet"] = (True, lambda op, ar, rng, s: (lambda r=rhs_(ar, rng, s): op.inv_quad_logdet(r, logdet=True)))
     M["inv_quad_logdet_iterative"] = (True, lambda op, ar, rng, s: (lambda r=rhs_(ar, rng, s): _iter(lambda: op.inv_quad_logdet(r, logdet=True))))
@@ -388,17 +420,17 @@ def _methods():
     M["root_decomposition_lanczos"] = (True, lambda op, ar, rng, s: (lambda: _iter(lambda: op.root_decomposition(method="lanczos").root.to_dense())))
     M["root_inv_decomposition"] = (True, lambda op, ar, rng, s: (lambda: op.root_inv_decomposition().root.to_dense()))
     M["root_inv_decomposition_lanczos"] = (True, lambda op, ar, rng, s: (
-        lambda iv=ar.t(R(rng, s[-1], 1), "initial_vectors", expand="batch"), tv=ar.t(R(rng, s[-1], 2), "test_vectors", expand="batch"):
+        lambda iv=bt(ar, rng, s, s[-1], 1, "initial_vectors"), tv=bt(ar, rng, s, s[-1], 2, "test_vectors"):
         _iter(lambda: op.root_inv_decomposition(initial_vectors=iv, test_vectors=tv, method="lanczos").root.to_dense())))
     M["diagonalization"] = (True, lambda op, ar, rng, s: (lambda: op.diagonalization()))
     M["diagonalization_lanczos"] = (True, lambda op, ar, rng, s: (lambda: _iter(lambda: op.diagonalization(method="lanczos"))))
     M["svd"] = (True, lambda op, ar, rng, s: (lambda: op.svd()))
     M["sqrt_inv_matmul"] = (True, lambda op, ar, rng, s: (lambda r=rhs_(ar, rng, s): op.sqrt_inv_matmul(r)))
-    M["sqrt_inv_matmul_lhs"] = (True, lambda op, ar, rng, s: (lambda r=rhs_(ar, rng, s), l=ar.t(R(rng, 2, s[-2]), "lhs", expand="batch"): op.sqrt_inv_matmul(r, l)))
+    M["sqrt_inv_matmul_lhs"] = (True, lambda op, ar, rng, s: (lambda r=rhs_(ar, rng, s), l=bt(ar, rng, s, 2, s[-2], "lhs"): op.sqrt_inv_matmul(r, l)))
     M["zero_mean_mvn_samples"] = (True, lambda op, ar, rng, s: (lambda: op.zero_mean_mvn_samples(2)))
     M["pivoted_cholesky"] = (True, lambda op, ar, rng, s: (lambda: op.pivoted_cholesky(rank=2)))
     M["cat_rows"] = (True, lambda op, ar, rng, s: (
-        lambda cr=ar.t(R(rng, 1, s[-1]), "cross_mat", expand="batch"), nm=ar.t(torch.tensor([[float(s[-1]) * 4 + 5.0]], dtype=torch.float64), "new_mat", expand="batch"):
+        lambda cr=bt(ar, rng, s, 1, s[-1], "cross_mat"), nm=bt(ar, rng, s, 1, 1, "new_mat", lo=float(s[-1]) * 4 + 5.0, hi=float(s[-1]) * 4 + 6.0):
         (op.cholesky(), op.cat_rows(cr, nm).to_dense())))
     M["to_double"] = (False, lambda op, ar, rng, s: (lambda: op.to(torch.float64).to_dense()))
     M["float"] = (False, lambda op, ar, rng, s: (lambda: op.float().to_dense()))
@@ -408,13 +440,21 @@ def _methods():
     M["detach_"] = (False, lambda op, ar, rng, s: (lambda: op.detach_().to_dense()))
     M["requires_grad_"] = (False, lambda op, ar, rng, s: (lambda: (op.requires_grad_(True), op.requires_grad_(False))))
     M["unsqueeze_squeeze"] = (False, lambda op, ar, rng, s: (lambda: op.unsqueeze(0).squeeze(0).to_dense()))
-    M["expand"] = (False, lambda op, ar, rng, s: (lambda: op.expand(2, *op.shape).to_dense()))
-    M["repeat"] = (False, lambda op, ar, rng, s: (lambda: op.repeat(2, 1, 1).to_dense()))
+    M["expand"] = (False, lambda op, ar, rng, s: (lambda: op.expand(3, *op.shape).to_dense()))
+    M["repeat"] = (False, lambda op, ar, rng, s: (lambda: op.repeat(2, *([1] * len(op.shape))).to_dense()))
     M["representation_roundtrip"] = (False, lambda op, ar, rng, s: (lambda: op.representation_tree()(*op.representation()).to_dense()))
+    M["add_operator"] = (False, lambda op, ar, rng, s: (
+        lambda o2=ar.op({"cls": "Dense", "t": opbuild.rand_t(rng, [s[-2], s[-1]])}, "other_op", dtype=_DT[0]): (op + o2).to_dense()))
+    M["add_diag_operator"] = (True, lambda op, ar, rng, s: (
+        lambda o2=ar.op({"cls": "Diag", "d": opbuild.rand_t(rng, [s[-1]], 1, 3)}, "other_op", dtype=_DT[0]): ((op + o2).to_dense(), (o2 + op).to_dense())))
+    M["matmul_operator"] = (False, lambda op, ar, rng, s: (
+        lambda o2=ar.op({"cls": "Dense", "t": opbuild.rand_t(rng, [s[-1], 2])}, "other_op", dtype=_DT[0]): (op @ o2).to_dense()))
+    M["mul_operator"] = (True, lambda op, ar, rng, s: (
+        lambda o2=ar.op(opbuild.gen(rng, "Root", batch=list(s[:-2]) if ar.layout != "expanded" else list(s[1:-2]), m=s[-1], psd=True), "other_op", dtype=_DT[0]): (op * o2).to_dense()))
     M["torch_matmul"] = (False, lambda op, ar, rng, s: (lambda r=rhs_(ar, rng, s): torch.matmul(op, r)))
     M["torch_diagonal"] = (False, lambda op, ar, rng, s: (lambda: torch.diagonal(op, dim1=-1, dim2=-2)))
     M["torch_linalg_solve"] = (True, lambda op, ar, rng, s: (lambda r=rhs_(ar, rng, s): torch.linalg.solve(op, r)))
-    M["torch_add"] = (False, lambda op, ar, rng, s: (lambda t=ar.t(R(rng, s[-2], s[-1]), "other"): torch.add(op, t).to_dense()))
+    M["torch_add"] = (False, lambda op, ar, rng, s: (lambda t=bt(ar, rng, s, s[-2], s[-1], "other"): torch.add(op, t).to_dense()))
     return M
 
 
@@ -441,33 +481,52 @@ GRAD_METHODS = {
 }
 
 
-def operator_cases(classes=None):
-    """(entry 'Class.method', variant, builder) for every class x method; the caller picks layouts"""
+VARIANTS = {"b0-d1-f64": ([], 1, torch.float64), "b2-d1-f64": ([2], 1, torch.float64), "b0-d2-f64": ([], 2, torch.float64),
+            "b0-d1-f32": ([], 1, torch.float32)}
+
+
+def operator_cases(classes=None, variants=None):
+    """(entry 'Class.method', variant, builder) for every class x method x variant (operator batch shape, nesting depth of the
+    operator tree, dtype); the caller picks layouts"""
     C = []
     M = _methods()
     classes = classes or opbuild.ALL
     for cls in classes:
         psd_ok = cls in opbuild.PSD_CAPABLE
-        for mname, (needs_psd, mk) in M.items():
-            if needs_psd and not psd_ok:
-                continue
+        for vname in (variants or list(VARIANTS)):
+            batch, depth, dt = VARIANTS[vname]
+            for mname, (needs_psd, mk) in M.items():
+                if needs_psd and not psd_ok:
+                    continue
 
-            def b(ar, rng, cls=cls, mk=mk, needs_psd=needs_psd, psd_ok=psd_ok):
-                e = opbuild.gen(rng, cls, batch=[], m=4, psd=psd_ok and (needs_psd or rng.random() < 0.5))
-                op = ar.op(e, "op")
-                shp = tuple(op.shape)
-                return mk(op, ar, rng, shp)
-            C.append(("%s.%s" % (cls, mname), "", b))
-        for mname, (needs_psd, f) in GRAD_METHODS.items():
-            if needs_psd and not psd_ok:
-                continue
+                def b(ar, rng, cls=cls, mk=mk, needs_psd=needs_psd, psd_ok=psd_ok, batch=batch, depth=depth, dt=dt):
+                    _DT[0] = dt
+                    try:
+                        e = opbuild.gen(rng, cls, batch=list(batch), m=4 if depth == 1 else 3, depth=depth, psd=psd_ok and (needs_psd or rng.random() < 0.5))
+                        op = ar.op(e, "op", dtype=dt)
+                        shp = tuple(op.shape)
+                        return mk(op, ar, rng, shp)
+                    finally:
+                        _DT[0] = torch.float64
+                C.append(("%s.%s" % (cls, mname), vname, b))
+            for mname, (needs_psd, f) in GRAD_METHODS.items():
+                if needs_psd and not psd_ok:
+                    continue
 
-            def b(ar, rng, cls=cls, f=f, needs_psd=needs_psd, psd_ok=psd_ok):
-                e = opbuild.gen(rng, cls, batch=[], m=4, psd=psd_ok and needs_psd)
-                op = ar.op(e, "op", requires_grad=True)
-                r = ar.t(R(rng, op.shape[-1], 2), "rhs", expand="batch", requires_grad=True)
-                return lambda: f(op, r).sum().backward()
-            C.append(("%s.%s" % (cls, mname), "", b))
+                def b(ar, rng, cls=cls, f=f, needs_psd=needs_psd, psd_ok=psd_ok, batch=batch, depth=depth, dt=dt):
+                    _DT[0] = dt
+                    try:
+                        e = opbuild.gen(rng, cls, batch=list(batch), m=4 if depth == 1 else 3, depth=depth, psd=psd_ok and needs_psd)
+                        op = ar.op(e, "op", dtype=dt, requires_grad=True)
+                        bsh = tuple(op.shape[:-2])
+                        if ar.layout == "expanded" and bsh and bsh[0] == 2:
+                            r = ar.t(R(rng, *bsh[1:], op.shape[-1], 2), "rhs", expand="batch", requires_grad=True)
+                        else:
+                            r = ar.t(R(rng, *bsh, op.shape[-1], 2), "rhs", requires_grad=True)
+                        return lambda: f(op, r).sum().backward()
+                    finally:
+                        _DT[0] = torch.float64
+                C.append(("%s.%s" % (cls, mname), vname, b))
     return C
 
 
